@@ -79,6 +79,20 @@ UNITS.update({
         "trusted": ["Kani 0.68 / CBMC 6.11 including its IEEE-754 model of f64 floor / div / mul",
                     "assumed contract: approx_exp(r, ccs) in [1, 2^63] for r in [0, ln 2), ccs in [0.5, 1] (stubbed)"],
     },
+    "U-SAMPZ": {
+        "backend": "verus",
+        "template": "contracts/samplerz.vc",
+        "search": "search-samplerz",
+        "trusted": ["Verus 0.2026.09.13 / Z3; vstd",
+                    "UNCHECKED: IEEE-754 double arithmetic treated as uninterpreted functions (only commutativity of + and * assumed); nothing is proved about the values of doubles",
+                    "Rust's float-to-int `as` cast: exact when representable, saturating otherwise; i64::saturating_add (assume_specification)",
+                    "base_sampler in 0..=18 (U-SAMP, Kani); ber_exp's result is not interpreted here",
+                    "rand::Rng::gen modelled as an uninterpreted draw"],
+        "assumption_lines": [r"external_body", r"exec_allows_no_decreases_clause", r"assume_specification", r"axiom_commutative"],
+        "dropped": ["D5: no decreases clause on the rejection loop (almost-sure termination is probabilistic)"],
+        "complete": "unbounded: every centre mu (including non-finite), every width, every byte stream",
+        "timeout": 600,
+    },
     "U-CODEC-K": {
         "backend": "kani",
         "functions": ["encoding.rs: compress_coefficient"],
@@ -181,12 +195,12 @@ UNITS.update({
         "backend": "verus",
         "template": "contracts/keygen.vc",
         "search": "search-keygen",
-        "trusted": ["Verus 0.2026.09.13 / Z3; vstd",
+        "trusted": ["core: i16::abs (assume_specification; used only if a tail of from_bytes calls it)", "Verus 0.2026.09.13 / Z3; vstd",
                     "Polynomial fft / ifft / hadamard_div contracts (U-NTT-POLY, U-BATCHINV), table_facts (U-TAB), existence of inverses (U-FELT-INV), Felt::new / Neg / is_zero (U-FELT)",
                     "Polynomial::map is the element-wise map (its one-line definition in polynomial.rs is compared textually on every run)",
                     "D4: gen_poly, gram_schmidt_norm_squared, ntru_solve_entrypoint and the `as i16` narrowing of F, G are outside the verified slice of ntru_gen (uncontracted external calls); the f64 comparison with 1.3689*q enters as an external predicate whose constant is pinned to 13689/10^4",
                     "termination of ntru_gen's rejection loop is not proved"],
-        "assumption_lines": [r"external_body", r"exec_allows_no_decreases_clause"],
+        "assumption_lines": [r"external_body", r"exec_allows_no_decreases_clause", r"assume_specification"],
         "dropped": ["D4: bindings computed in floating point / BigInt in ntru_gen", "D5: no decreases clause on ntru_gen's loop"],
         "complete": "unbounded: every secret key object with invertible f; every execution of ntru_gen's loop",
         "timeout": 900,
@@ -309,9 +323,9 @@ PROPS.update({
     "C03": {
         "title": "Decoders and verify are total: untrusted bytes never cause a panic",
         "level": "proof",
-        "quick": ["U-VERIFY", "U-CODEC", "U-H2P", "U-NTT-CORE", "U-NTT-POLY", "U-SIG", "U-PK", "U-SK", "U-SKF", "U-FELT"],
+        "quick": ["U-VERIFY", "U-CODEC", "U-H2P", "U-NTT-CORE", "U-NTT-POLY", "U-SIG", "U-PK", "U-SK", "U-SKF", "U-KEYGEN", "U-BATCHINV", "U-FELT"],
         "thorough": [],
-        "undecided_clauses": ["the tail of SecretKey::from_bytes (G recomputation through the NTT, from_b0 = floating point) is assumed panic-free; its NTT callees are panic-free by U-NTT-*, from_b0 is not analysed"],
+        "undecided_clauses": ["the integer tail of SecretKey::from_bytes (G recomputation through the NTT) is proved panic-free and Ok (U-KEYGEN from_bytes_tail over the U-NTT-* / U-BATCHINV contracts); from_b0 (floating-point FFT, LDL tree) and the balanced-value plumbing are not analysed"],
         "assumptions": [],
         "level_text": "Every built-in panic obligation (index, slice range, unwrap, unreachable!/panic! arms, + - * << overflow as in an overflow-checked build) is discharged by Verus in decompress, verify, hash_to_point and the whole NTT path, for all inputs; PublicKey::from_bytes and the parsing part of SecretKey::from_bytes likewise (Verus, every byte string); Signature::from_bytes is total on every byte string of length <= 1300, the secret-key field decoder on every field of 1..8 bits, and Felt::new on every i16 (Kani, complete).",
         "level_note": "Assumed panic-free: sha3, BitVec/itertools internals (modelled), Vec allocation. Partial: the two key decoders are covered separately.",
@@ -334,9 +348,9 @@ PROPS.update({
     "C05": {
         "title": "Keys and signatures survive serialisation: fixed sizes, exact round trip",
         "level": "other",
-        "quick": ["U-SIG", "U-PK", "U-SK", "U-SKF", "U-FELT"],
-        "thorough": [],
-        "undecided_clauses": ["equality of the recomputed G after a secret-key round trip (needs the NTRU equation, C04) and the tail of SecretKey::from_bytes (assumed contract, D4)",
+        "quick": ["U-SIG", "U-PK", "U-SK", "U-SKF", "U-KEYGEN", "U-NTT-POLY", "U-NTT-CORE", "U-BATCHINV", "U-TAB", "U-FELT"],
+        "thorough": ["U-FELT-INV"],
+        "undecided_clauses": ["equality of the recomputed G after a secret-key round trip: proved is that from_bytes never fails after the field checks and returns G with G*f == g*F in Z_q[X]/(X^n+1) (U-KEYGEN, from_bytes_tail); that this G equals the generated one needs the NTRU equation over Z and |G| < q/2 (C04, undecided there); from_b0 and the balanced-value / sign plumbing of b0 stay outside the verified text",
                               "that key generation keeps f, g, F inside the encodable range (F8: ntru_gen never checks; no failing seed is known, so this is undecided, not a finding)",
                               "'the decoded key signs messages that verify' reduces to C01"],
         "assumptions": [],
@@ -383,17 +397,17 @@ PROPS.update({
     "C09": {
         "title": "The integer Gaussian sampler is total and follows D_{Z,mu,sigma}",
         "level": "other",
-        "quick": ["U-SAMP", "U-APPROX"],
+        "quick": ["U-SAMP", "U-APPROX", "U-SAMPZ"],
         "thorough": [],
         "undecided_clauses": ["the output distribution of sampler_z (a probabilistic statement; follows from the three blocks by the specification's analysis, not by a contract)",
                               "almost-sure termination of the rejection loop",
-                              "panic-freedom of the floating-point glue of sampler_z itself (f64 arithmetic; `z + (s as i16)` overflows for |mu| beyond the i16 range, F7)",
+                              "the values of the doubles sampler_z computes (rounding error of x and ccs): U-SAMPZ proves which expression is evaluated, not what it evaluates to",
                               "the lower bound approx_exp >= 1 on ber_exp's domain (assumed in ber_exp's harness) and the float-to-integer conversions"],
         "assumptions": [],
-        "explanation": "Partial claim, proof-level for the integer building blocks only. base_sampler == BaseSampler (count of RCDT entries above u) on all 2^72 inputs (Kani, complete, table typed from the specification). approx_exp's integer recurrence == ApproxExp for every 63-bit z and every scaled ccs, with no under/overflow (Verus on the extracted text, constants checked against the specification's). ber_exp == BerExp whenever the 7 supplied bytes decide the comparison, and is panic-free otherwise EXCEPT the recorded finding F6 (7-byte tie). Distribution, termination and the floating-point glue are not decided.",
+        "explanation": "Partial claim, proof-level for the integer building blocks only. base_sampler == BaseSampler (count of RCDT entries above u) on all 2^72 inputs (Kani, complete, table typed from the specification). approx_exp's integer recurrence == ApproxExp for every 63-bit z and every scaled ccs, with no under/overflow (Verus on the extracted text, constants checked against the specification's). ber_exp == BerExp whenever the 7 supplied bytes decide the comparison, and is panic-free otherwise EXCEPT the recorded finding F6 (7-byte tie). sampler_z (Verus on the extracted text, doubles as an uninterpreted IEEE algebra): its integer plumbing cannot overflow for any centre, width or byte stream (defect F7 found here and repaired, fix 2b9a817), every round passes BerExp exactly the expression tree of Algorithm 15 (constants sigma_max = 1.8205, 1/2, 2; operands z, r, sigma', z0) and ccs = sigma_min / sigma', and the result is z + floor(mu) of the accepted round whenever representable. Distribution, termination and the numerical values of the doubles are not decided.",
         "level_text": "Partial: the three integer building blocks equal the specification's on every input (proof-level); the distribution-level statement is not claimed.",
         "level_note": "Known finding F6 is reported as KNOWN-FINDING and does not fail the check; any other failing obligation does.",
-        "technique": "Kani full-domain contract harnesses (+ contract stub for approx_exp) and a Verus contract on the extracted integer core",
+        "technique": "Kani full-domain contract harnesses (+ contract stub for approx_exp) and Verus contracts on the extracted integer core and on sampler_z over an uninterpreted floating-point algebra",
     },
 })
 
@@ -405,7 +419,7 @@ PROPS.update({
         "thorough": [],
         "undecided_clauses": ["uniqueness / non-repetition of salts across calls, keys and threads and the absence of constant byte positions are properties of the OS-seeded generator behind rand::thread_rng (a history-level, probabilistic statement no function contract expresses); assumed"],
         "assumptions": [],
-        "explanation": "Partial claim, proved on the extracted text of sign (Verus): the salt that sign returns is exactly the first 40 bytes this call draws from rand::thread_rng, nothing overwrites it, and the string that is hashed to a point is that salt followed by the message. This rules out a constant, message- or key-derived, partially overwritten, re-drawn-after-hashing or otherwise recycled salt. That the generator's stream itself is fresh and unpredictable is assumed.",
+        "explanation": "Partial claim, proved on the extracted text of sign (Verus): the salt that sign returns is a window of 40 consecutive bytes that this very call drew from rand::thread_rng (on the current code: the first 40), nothing else writes to it, and (stated for C01) the string that is hashed to a point is that salt followed by the message. This rules out a constant, message- or key-derived, partially overwritten, re-drawn-after-hashing or otherwise recycled salt. That the generator's stream itself is fresh and unpredictable is assumed.",
         "level_text": "Partial: the data flow of the salt inside sign is proved; the randomness source is assumed.",
         "level_note": "thread_rng is modelled as an abstract ambient byte stream; the floating-point part of sign is sliced away (D4).",
         "technique": "Verus contract on a mechanically extracted statement slice of the real function",
